@@ -72,7 +72,7 @@ try:
         results[cid] = {"verdict": "CAUGHT" if r.returncode == 1 and "VIOLATION" in out else ("HARNESS-ERROR" if r.returncode == 3 else "MISSED"), "rc": r.returncode, "signatures": sigs[:4]}
         print(cid, results[cid]["verdict"], "rc=%d" % r.returncode, *sigs[:2], sep="\n  ")
 finally:
-    subprocess.run(["git","-C","/repo","checkout","--","."],check=True)
+    subprocess.run(["git","-C","/repo","checkout","--","."],check=True); subprocess.run(["git","-C","/repo","clean","-fdq"],check=True)
     subprocess.run("cd /verif && git checkout -- evidence 2>/dev/null; true", shell=True)
 meta = {"seed": sid, "breaks_property": prop, "source": "independent sub-agent given only the property text and a scratch worktree",
         "confirmed": {"existing_suite_passes_with_change": s_ok, "demo_fails_with_change": not d_with, "demo_passes_without_change": d_without},
